@@ -130,48 +130,94 @@ def unixFdsOf (fs : List Field) : Nat :=
   | some (.fixed _ n) => n
   | _ => 0
 
-/-- One message from the front of `bs` (the loader's buffer). `maxLen` is the loader's
-    maximum message size, `fdsAvail` the number of descriptors received so far. -/
-def loadOne (strictLocal : Bool) (maxLen fdsAvail : Nat) (bs : Bytes) : LoadResult :=
+/-- what the 16-byte fixed header announces -/
+structure Frame where
+  e : Endian
+  falen : Nat      -- claimed length of the header-fields array
+  blen : Nat       -- claimed length of the body
+  deriving Inhabited
+
+def Frame.hlen (f : Frame) : Nat := align8 (16 + f.falen)
+def Frame.total (f : Frame) : Nat := f.hlen + f.blen
+
+inductive FrameResult
+  | incomplete
+  | corrupt
+  | framed (f : Frame)
+
+/-- the length checks of `_dbus_header_have_message_untrusted`, as a function of the buffer
+    length and the three things read from the fixed header -/
+def frameCore (maxLen len : Nat) (f : Frame) : FrameResult :=
+  if maxLen < f.falen then .corrupt
+  else if maxLen < f.blen then .corrupt
+  else if maxLen < f.total then .corrupt
+  else if len < f.total then .incomplete
+  else .framed f
+
+/-- `_dbus_header_have_message_untrusted`: looks at the first 16 bytes and at the buffer length only -/
+def frameOf (maxLen : Nat) (bs : Bytes) : FrameResult :=
   if bs.length < 16 then .incomplete else
   match endianOfByte (bs.getD 0 0) with
   | none => .corrupt
   | some e =>
-    let falen := decNat e ((bs.drop 12).take 4)
-    let blen := decNat e ((bs.drop 4).take 4)
-    if maxLen < falen then .corrupt
-    else if maxLen < blen then .corrupt
-    else
-      let hlen := align8 (16 + falen)
-      if maxLen < hlen + blen then .corrupt
-      else if bs.length < hlen + blen then .incomplete
-      else
-        -- header validated as a body of signature yyyyuua(yv) over the whole buffer
-        match decodeFields e (fuelFor bs.length) 0 headerTypes 0 bs with
-        | some ([.fixed _ _, .fixed _ mtype, .fixed _ flags, .fixed _ version, .fixed _ _,
-                 .fixed _ serial, .array _ fvals], _) =>
-          if !(((bs.drop (16 + falen)).take (hlen - (16 + falen))).all (· == 0)) then .corrupt
-          else if mtype = 0 then .corrupt
-          else if version ≠ 1 then .corrupt
-          else if serial = 0 then .corrupt
-          else
-            match fvals.mapM fieldOfVal with
-            | none => .corrupt
-            | some fields =>
-              if !checkFields strictLocal fields [] then .corrupt
-              else if !mandatoryOK mtype fields then .corrupt
-              else
-                match bodyTypesOf fields with
-                | none => .corrupt
-                | some tys =>
-                  let bodyBytes := (bs.drop hlen).take blen
-                  match decodeFields e (fuelFor bs.length) 0 tys 0 bodyBytes with
-                  | some (vals, []) =>
-                    if fdsAvail < unixFdsOf fields then .corrupt
-                    else .ok { endian := e, mtype := mtype, flags := flags, version := version,
-                               serial := serial, fields := fields, bodyTypes := tys, body := vals }
-                          (hlen + blen)
-                  | _ => .corrupt
-        | _ => .corrupt
+    frameCore maxLen bs.length
+      { e := e, falen := decNat e ((bs.drop 12).take 4), blen := decNat e ((bs.drop 4).take 4) }
+
+/-- the fixed part and the raw field structs, from validating the *whole buffer* as a body of
+    signature `yyyyuua(yv)` (`_dbus_header_load` passes the loader's whole buffer) -/
+def headerVals (f : Frame) (bs : Bytes) : Option (Nat × Nat × Nat × Nat × List Val) :=
+  match decodeFields f.e (fuelFor bs.length) 0 headerTypes 0 bs with
+  | some ([.fixed _ _, .fixed _ mtype, .fixed _ flags, .fixed _ version, .fixed _ _,
+           .fixed _ serial, .array _ fvals], _) => some (mtype, flags, version, serial, fvals)
+  | _ => none
+
+/-- the bytes between the end of the fields array and the 8-aligned end of the header -/
+def headerPadding (f : Frame) (bs : Bytes) : Bytes := (bs.drop (16 + f.falen)).take (f.hlen - (16 + f.falen))
+
+/-- the remaining checks of `_dbus_header_load` -/
+def checkHeader (strictLocal : Bool) (f : Frame) (bs : Bytes) (mtype version serial : Nat)
+    (fvals : List Val) : Option (List Field) :=
+  if !((headerPadding f bs).all (· == 0)) then none
+  else if mtype = 0 then none
+  else if version ≠ 1 then none
+  else if serial = 0 then none
+  else match fvals.mapM fieldOfVal with
+    | none => none
+    | some fields =>
+      if !checkFields strictLocal fields [] then none
+      else if !mandatoryOK mtype fields then none
+      else some fields
+
+def bodyBytes (f : Frame) (bs : Bytes) : Bytes := (bs.drop f.hlen).take f.blen
+
+/-- step 2 of `load_message`: the body must be exactly the values its signature announces.
+    `fuel` is the decoder fuel (any amount ≥ `fuelFor` of the body length gives the same answer). -/
+def bodyVals (fuel : Nat) (f : Frame) (fields : List Field) (bs : Bytes) : Option (List Ty × List Val) :=
+  match bodyTypesOf fields with
+  | none => none
+  | some tys =>
+    match decodeFields f.e fuel 0 tys 0 (bodyBytes f bs) with
+    | some (vals, []) => some (tys, vals)
+    | _ => none
+
+/-- One message from the front of `bs` (the loader's buffer). `maxLen` is the loader's
+    maximum message size, `fdsAvail` the number of descriptors received so far. -/
+def loadOne (strictLocal : Bool) (maxLen fdsAvail : Nat) (bs : Bytes) : LoadResult :=
+  match frameOf maxLen bs with
+  | .incomplete => .incomplete
+  | .corrupt => .corrupt
+  | .framed f =>
+    match headerVals f bs with
+    | none => .corrupt
+    | some (mtype, flags, version, serial, fvals) =>
+      match checkHeader strictLocal f bs mtype version serial fvals with
+      | none => .corrupt
+      | some fields =>
+        match bodyVals (fuelFor bs.length) f fields bs with
+        | none => .corrupt
+        | some (tys, vals) =>
+          if fdsAvail < unixFdsOf fields then .corrupt
+          else .ok { endian := f.e, mtype := mtype, flags := flags, version := version,
+                     serial := serial, fields := fields, bodyTypes := tys, body := vals } f.total
 
 end Dbus.Model
